@@ -1066,7 +1066,8 @@ class Chunk(Pipeline):
             utts.append({"id": uid, "T": T, "ali": ali, "ref": ref})
         return {"utts": utts, "policy": rng.choice(["fixed", "ali", "ref"]), "window": rng.choice(["symmetric", "causal", "future"]), "lobe": rng.choice([0, 0, 1, 2, 3]),
                 "pad_mode": rng.choice([None, None, "constant", "replicate", "reflect"]), "pad_constant": rng.choice([0.0, -1.0, 2.0]), "partial": rng.random() < 0.3,
-                "retain": rng.random() < 0.25, "salt": rng.randrange(1000), "with_ali": rng.random() < 0.8, "with_ref": rng.random() < 0.8, "idx_names": idx_names}
+                "retain": rng.random() < 0.25, "salt": rng.randrange(1000), "with_ali": rng.random() < 0.8, "with_ref": rng.random() < 0.8, "idx_names": idx_names,
+                "subdirs": rng.choice([["feat", "ali", "ref"], ["feat", "ali", "ref"], ["f", "a", "r"], ["mfcc", "pdf", "txt"]])}
 
     @staticmethod
     def feats(sc, k, T):
@@ -1076,17 +1077,18 @@ class Chunk(Pipeline):
     def run(sc, s, cfg, res):
         with_ali = sc["with_ali"] or sc["policy"] == "ali"
         with_ref = sc["with_ref"] or sc["policy"] == "ref"
-        os.makedirs(s.p("in", "feat"))
+        FS, AS, RS = sc.get("subdirs", ["feat", "ali", "ref"])
+        os.makedirs(s.p("in", FS))
         if with_ali:
-            os.makedirs(s.p("in", "ali"))
+            os.makedirs(s.p("in", AS))
         if with_ref:
-            os.makedirs(s.p("in", "ref"))
+            os.makedirs(s.p("in", RS))
         for k, u in enumerate(sc["utts"]):
-            torch.save(Chunk.feats(sc, k, u["T"]), s.p("in", "feat", fname(sc, u["id"])))
+            torch.save(Chunk.feats(sc, k, u["T"]), s.p("in", FS, fname(sc, u["id"])))
             if with_ali:
-                torch.save(torch.tensor(u["ali"], dtype=torch.long), s.p("in", "ali", fname(sc, u["id"])))
+                torch.save(torch.tensor(u["ali"], dtype=torch.long), s.p("in", AS, fname(sc, u["id"])))
             if with_ref:
-                torch.save(torch.tensor(u["ref"], dtype=torch.long).reshape(-1, 3), s.p("in", "ref", fname(sc, u["id"])))
+                torch.save(torch.tensor(u["ref"], dtype=torch.long).reshape(-1, 3), s.p("in", RS, fname(sc, u["id"])))
         a = [s.p("in"), s.p("out")] + naming_args(sc) + cfg.args() + ["--policy", sc["policy"], "--lobe-size", sc["lobe"], "--window-type", sc["window"], "--quiet"]
         if sc["pad_mode"]:
             a += ["--pad-mode", sc["pad_mode"], "--pad-constant", sc["pad_constant"]]
@@ -1096,16 +1098,19 @@ class Chunk(Pipeline):
             a.append("--retain-token-boundaries")
         if sc.get("idx_names"):
             a += ["--format-utt", "{utt_id}.{idx:03d}.{start}.{end}"]
+        if [FS, AS, RS] != ["feat", "ali", "ref"]:
+            a += ["--feat-subdir", FS, "--ali-subdir", AS, "--ref-subdir", RS]
         o = run_command("chunk_torch_spect_data_dir", a)
         out = {"status": status_of([o]), "snap": {"out": snapshot(s.p("out"))}, "outcomes": [o], "validated": None}
-        if o.exc is None and not o.rc and cfg.workers == 0 and os.path.isdir(s.p("out", "feat")):
+        if o.exc is None and not o.rc and cfg.workers == 0 and os.path.isdir(s.p("out", FS)):
             from pydrobert.torch import data
             import warnings
 
             try:
                 with warnings.catch_warnings():
                     warnings.simplefilter("ignore")
-                    ds = data.SpectDataSet(s.p("out"), file_prefix=sc["prefix"], file_suffix=sc["suffix"], suppress_alis=False, tokens_only=False, warn_on_missing=False)
+                    ds = data.SpectDataSet(s.p("out"), file_prefix=sc["prefix"], file_suffix=sc["suffix"], suppress_alis=False, tokens_only=False, warn_on_missing=False,
+                                           feat_subdir=FS, ali_subdir=AS, ref_subdir=RS)
                     data.validate_spect_data_set(ds)
                 out["validated"] = True
             except ValueError as e:
@@ -1130,7 +1135,11 @@ class Chunk(Pipeline):
         parts = {"feat": {}, "ali": {}, "ref": {}}
         for rel, d in snap.items():
             part, fn = rel.split("/", 1)
-            parts[part][fn] = d
+            names = dict(zip(sc.get("subdirs", ["feat", "ali", "ref"]), ["feat", "ali", "ref"]))
+            if part not in names:
+                res.violate("chunk.subdirs", f"output holds a sub-directory {part!r}, expected {sorted(names)}", pipeline=P)
+                return
+            parts[names[part]][fn] = d
         if with_ali and set(parts["ali"]) != set(parts["feat"]) or with_ref and set(parts["ref"]) != set(parts["feat"]):
             res.violate("chunk.file-sets", "feat/, ali/ and ref/ of the chunked directory do not hold the same chunks", pipeline=P)
             return
